@@ -291,6 +291,10 @@ func provablyDistinct(a, b *Term) (bool, bool) {
 	if a.Sort != "Ptr" {
 		return false, false
 	}
+	// an object allocated by this execution is not reachable from the entry state (assumption A4)
+	if (rootOf(a).Op == "zz_new" && entryRooted(b)) || (rootOf(b).Op == "zz_new" && entryRooted(a)) {
+		return true, true
+	}
 	if isCtor(a) && isCtor(b) {
 		if a.Op != b.Op {
 			return true, true
@@ -725,16 +729,38 @@ func (d *Decls) text() string {
 func (d *Decls) textFor(body string) string {
 	var sb strings.Builder
 	sb.WriteString(preamble)
-	for _, l := range d.order {
+	split := func(r rune) bool { return r == '(' || r == ')' || r == ' ' || r == '\n' }
+	used := map[string]bool{}
+	for _, tok := range strings.FieldsFunc(body, split) {
+		used[tok] = true
+	}
+	// relevant raw axioms first (they may mention further symbols)
+	keepAssert := map[int]bool{}
+	for i, l := range d.order {
 		if strings.HasPrefix(l, "(assert") {
-			keep := false
-			for _, tok := range strings.FieldsFunc(l, func(r rune) bool { return r == '(' || r == ')' || r == ' ' }) {
-				if strings.HasPrefix(tok, "zz_") && strings.Contains(body, tok) {
-					keep = true
+			toks := strings.FieldsFunc(l, split)
+			for _, tok := range toks {
+				if strings.HasPrefix(tok, "zz_") && used[tok] {
+					keepAssert[i] = true
 					break
 				}
 			}
-			if !keep {
+			if keepAssert[i] {
+				for _, tok := range toks {
+					used[tok] = true
+				}
+			}
+		}
+	}
+	for i, l := range d.order {
+		if strings.HasPrefix(l, "(assert") {
+			if !keepAssert[i] {
+				continue
+			}
+		} else if strings.HasPrefix(l, "(declare-const ") || strings.HasPrefix(l, "(declare-fun ") {
+			// symbols no assertion of this query mentions are not declared (thousands of skolems otherwise)
+			f := strings.FieldsFunc(l, split)
+			if len(f) >= 2 && !used[f[1]] && (strings.HasPrefix(f[1], "zz_sk_") || strings.HasPrefix(f[1], "zz_undef_") || isNumberedSym(f[1])) {
 				continue
 			}
 		}
@@ -744,6 +770,20 @@ func (d *Decls) textFor(body string) string {
 	return sb.String()
 }
 
+// isNumberedSym: engine-generated fresh symbols end in _<number>
+func isNumberedSym(n string) bool {
+	i := strings.LastIndexByte(n, '_')
+	if i < 0 || i == len(n)-1 || !strings.HasPrefix(n, "zz_") {
+		return false
+	}
+	for _, c := range n[i+1:] {
+		if c < '0' || c > '9' {
+			return false
+		}
+	}
+	return true
+}
+
 func sortedKeys[V any](m map[string]V) []string {
 	var ks []string
 	for k := range m {
@@ -751,4 +791,28 @@ func sortedKeys[V any](m map[string]V) []string {
 	}
 	sort.Strings(ks)
 	return ks
+}
+
+// substTerm replaces every occurrence of the variable term x (a nullary symbol) in t by r.
+func substTerm(t, x, r *Term) *Term {
+	if len(t.Args) == 0 {
+		if t.Op == x.Op && t.Sort == x.Sort {
+			return r
+		}
+		return t
+	}
+	changed := false
+	args := make([]*Term, len(t.Args))
+	for i, a := range t.Args {
+		args[i] = substTerm(a, x, r)
+		if args[i] != a {
+			changed = true
+		}
+	}
+	if !changed {
+		return t
+	}
+	c := *t
+	c.Args = args
+	return &c
 }
